@@ -120,6 +120,15 @@ def _pseudo(m):
         return True
 
 
+def _ring_pseudo(m):
+    from ..oracles import wl
+    try:
+        col, adj = wl.constitution(m)
+        return wl.gap_a_ring(m, wl.orbits(col, adj))
+    except TimeoutError:
+        return True
+
+
 def _odd(m):
     from ..oracles import wl
     try:
@@ -204,7 +213,8 @@ def compare_mol(a, b, rec, label, coords):
             env = a.stereogenic_tetrahedrons[n]
             if b.atom(n).stereo is None:
                 rec.fail('stereo', f'{label}: tetrahedral label of atom {n} lost',
-                         sig='tetrahedral-lost:odd-label-orbit' if _odd(a) else 'tetrahedral-lost')
+                         sig='tetrahedral-lost:odd-label-orbit' if _odd(a) else
+                         ('tetrahedral-lost:pseudo-asymmetric-ring' if _ring_pseudo(a) else 'tetrahedral-lost'))
                 return False
             if b._translate_tetrahedron_sign(n, env) != a._translate_tetrahedron_sign(n, env):
                 rec.fail('stereo', f'{label}: configuration of atom {n} inverted', sig='tetrahedral-sign')
